@@ -183,6 +183,7 @@ type c19Event struct {
 func c19Run(c *core.C) {
 	r := c.R
 	s := gen.NewScenario(r, 4, scenOpts)
+	countBig(c, s)
 	tok, err := buildScenarioToken(c.Seed, fmt.Sprintf("c19-%d", c.Idx), s.Blocks)
 	if err != nil {
 		c.Violate("build-refused", err.Error(), nil)
